@@ -1,3 +1,4 @@
+pub mod node;
 pub mod props;
 pub mod runner;
 pub mod util;
